@@ -8,7 +8,8 @@ Each entry is applied to its own scratch git worktree of /repo (outside /repo an
 test-suite is run there (must pass: 78 tests), for seeded entries the demonstration is run (must fail with the change), and the
 checks analyse the scratch tree (CFDPSA_REPO=<worktree>).  Nothing is ever applied to /repo itself.
 
-usage: corpus_eval.py [--jobs N] [--only id,id,...] [--kind seeded|benign|all] [--checks all|expected] [--out FILE]
+usage: corpus_eval.py [--jobs N] [--only id,id,...] [--kind seeded|benign|all] [--checks all|expected] [--check-list C12,C13] [--out FILE]
+  --check-list      : re-run only these checks and merge them into the entries' earlier results (after a rule was added)
   --checks expected : seeded entries run only the checks recorded in their meta.json as detecting (plus the target check)
 """
 from __future__ import annotations
@@ -31,6 +32,10 @@ ALL = [f"C{i:02d}" for i in range(1, 21)]
 
 def sh(cmd: str, **kw) -> subprocess.CompletedProcess:
     return subprocess.run(cmd, shell=True, capture_output=True, text=True, **kw)
+
+
+CHECK_LIST: list[str] = []
+PREVIOUS: dict[str, dict] = {}
 
 
 def evaluate(kind: str, entry: Path, checks_mode: str, jobs: int, root: Path) -> dict:
@@ -60,6 +65,9 @@ def evaluate(kind: str, entry: Path, checks_mode: str, jobs: int, root: Path) ->
             m = json.loads((entry / "meta.json").read_text())
             checks = sorted(set(m.get("detected_by_checks", [])) | {sid[:3]})
         res["checks"] = {}
+        if CHECK_LIST:
+            checks = CHECK_LIST
+            res["checks"] = dict(PREVIOUS.get(sid, {}).get("checks", {}))
         evd = root / f"ev-{sid}"
         for c in checks:
             e2 = dict(os.environ, CFDPSA_REPO=str(wt), CFDPSA_EVIDENCE_DIR=str(evd), CFDPSA_JOBS=str(jobs))
@@ -92,7 +100,12 @@ def main() -> int:
     ap.add_argument("--kind", default="all")
     ap.add_argument("--checks", default="all")
     ap.add_argument("--out", default=str(VERIF / "selftest" / "corpus_results.json"))
+    ap.add_argument("--check-list", default="")
     a = ap.parse_args()
+    global CHECK_LIST, PREVIOUS
+    CHECK_LIST = [c for c in a.check_list.split(",") if c]
+    if CHECK_LIST and Path(a.out).exists():
+        PREVIOUS = {r["id"]: r for r in json.loads(Path(a.out).read_text()).get("results", [])}
     only = {x for x in a.only.split(",") if x}
     entries = []
     for kind in ("seeded", "benign"):
@@ -113,11 +126,11 @@ def main() -> int:
         sh(f"git -C {REPO} worktree prune")
     prev = {}
     outp = Path(a.out)
-    if outp.exists() and only:
+    if outp.exists() and (only or CHECK_LIST):
         prev = {r["id"]: r for r in json.loads(outp.read_text()).get("results", [])}
     for r in results:
         prev[r["id"]] = r
-    allr = [prev[k] for k in sorted(prev)] if only else results
+    allr = [prev[k] for k in sorted(prev)] if (only or CHECK_LIST) else results
     summ = {"seeded": sum(1 for r in allr if r["kind"] == "seeded"), "seeded_detected": sum(1 for r in allr if r.get("verdict") == "detected"),
             "benign": sum(1 for r in allr if r["kind"] == "benign"), "benign_silent": sum(1 for r in allr if r.get("verdict") == "silent")}
     outp.write_text(json.dumps({"summary": summ, "results": allr}, indent=1))
